@@ -79,8 +79,35 @@ class Label:
         self.idx = None
 
 
+def inline_snapshot_helpers(mod, fn):
+    """A call `h()` of a module-level helper without parameters whose body is one `return <expression>` (after a docstring) is
+    replaced by that expression AT THE CALL SITE (same evaluation point, so the position relative to the lock is preserved).
+    Helpers that do anything else are left alone and meet the fail-closed grammar."""
+    import copy
+    helpers = {}
+    for st in mod.body:
+        if isinstance(st, ast.FunctionDef) and st is not fn and not st.decorator_list and not (st.args.args or st.args.vararg or st.args.kwarg or st.args.kwonlyargs or st.args.posonlyargs):
+            body = [b for b in st.body if not (isinstance(b, ast.Expr) and isinstance(b.value, ast.Constant))]
+            if len(body) == 1 and isinstance(body[0], ast.Return) and body[0].value is not None \
+                    and not any(isinstance(n, (ast.Lambda, ast.Await, ast.Yield, ast.YieldFrom, ast.NamedExpr)) for n in ast.walk(body[0].value)):
+                helpers[st.name] = body[0].value
+
+    class Inl(ast.NodeTransformer):
+        def visit_Call(self, node):
+            self.generic_visit(node)
+            if isinstance(node.func, ast.Name) and node.func.id in helpers and not node.args and not node.keywords:
+                return ast.copy_location(copy.deepcopy(helpers[node.func.id]), node)
+            return node
+    if not helpers:
+        return fn
+    new = Inl().visit(fn)           # in place: fn stays the node of the module tree (identity is used by the other checks)
+    ast.fix_missing_locations(new)
+    return new
+
+
 class OnceTranslator:
     def __init__(self, mod, fn):
+        fn = inline_snapshot_helpers(mod, fn)
         self.mod, self.fn = mod, fn
         self.code = []          # (opname, Label|None, lineno)
         self.env = {}           # local var -> 'mat' | 'lazy'
